@@ -273,6 +273,32 @@ let dispatch (f : Stdlib.String.t list) : Stdlib.String.t =
       let (idna, ip_ok) = mk_oracle_table tbl in
       build_res_s (build_ops alnum_fn idna ip_ok (List.map parse_bop (split ';' ops)))
   | ["spec.build"; ops] -> build_res_s (spec_build (List.map parse_bop (split ';' ops)))
+  | ["pool.replay"; mx; evs] ->
+      (* events ';'-separated; the pseudo event "obs" prints the model's idle-set size at that point *)
+      let rec nat_of_int i = if i <= 0 then O else S (nat_of_int (i - 1)) in
+      let rec int_of_nat = function O -> 0 | S k -> 1 + int_of_nat k in
+      let c s = nat_of_int (int_of_string s) in
+      let ev s = match split ':' s with
+        | ["pop"; x] -> EPop (c x) | ["popempty"] -> EPopEmpty | ["popshut"] -> EPopShutdown
+        | ["pok"; x] -> EProbeOk (c x) | ["pfail"; x] -> EProbeFail (c x)
+        | ["cok"; x] -> EConnectOk (c x) | ["cfail"] -> EConnectFail
+        | ["sok"; x] -> ESendOk (c x) | ["serr"; x; b] -> ESendErr (c x, b = "1")
+        | ["rpark"; x] -> ERecyclePark (c x) | ["rclose"; x] -> ERecycleClose (c x)
+        | ["shutdown"] -> EShutdown0
+        | ["mscan"] -> EMaintScan [] | ["mscan"; l] -> EMaintScan (List.map c (split ',' l))
+        | ["mexit"] -> EMaintExit | ["mcok"; x] -> EMaintConnectOk (c x) | ["mpush"; x] -> EMaintPush (c x)
+        | ["mdrop"; x] -> EMaintDropNew (c x) | ["mabort"; x] -> EMaintAbort (c x)
+        | _ -> failwith ("pool event " ^ s) in
+      let idle_s p = match p.idle with None -> "shut" | Some l -> "[" ^ String.concat "," (List.map (fun x -> string_of_int (int_of_nat x)) l) ^ "]" in
+      let obs = Buffer.create 16 in
+      let rec go p i = function
+        | [] -> (None, p)
+        | "obs" :: r -> Buffer.add_string obs (idle_s p); Buffer.add_char obs ' '; go p (i + 1) r
+        | e :: r -> (match step p (ev e) with Some p' -> go p' (i + 1) r | None -> (Some i, p)) in
+      let (rej, p) = go (p_init (nat_of_int (int_of_string mx))) 0 (split ';' evs) in
+      Printf.sprintf "%s\t%s\t%d,%d,%d,%d\t%s"
+        (match rej with None -> "ok" | Some i -> "rej:" ^ string_of_int i) (idle_s p)
+        (int_of_nat p.sends_ok) (int_of_nat p.commits) (int_of_nat p.sends) (int_of_nat p.pending) (Buffer.contents obs)
   | fn :: _ -> "UNKNOWN-FN " ^ fn
   | [] -> "EMPTY"
 
